@@ -14,6 +14,10 @@ property is written in ("`p[a:b:c]`"), not of the library under verification.
   `oe`, and shows on `i[k]` the wire's input `XOR inverted[k]` (a bidirectional buffer shows its own
   `o[k]` while it is enabled).
 * A **registered buffer** shows after a clock edge what the combinational one showed just before it.
+* On real pads a buffer needs one cell on the pads it drives or listens on: the pads of a single-ended port,
+  the true half of a differential pair, and the complementary half when it *drives* the pair (the
+  complement goes there); a differential **input** listens on the true half alone, so its complementary
+  pads carry no cell (`padClaims`). The polarity is applied between the buffer's signals and the cell.
 * Every pad bit may be claimed by at most one buffer cell.
 -/
 
@@ -156,5 +160,40 @@ def padO (inv o : List Bool) : List Bool := List.zipWith xor o inv
 def padI (inv pad : List Bool) : List Bool := List.zipWith xor pad inv
 /-- the complementary half of a differential pair carries the complement -/
 def padON (inv o : List Bool) : List Bool := (padO inv o).map not
+
+/-- the cells a generic buffer needs: (pads, cell direction). `n`: the complementary half, if the port is
+differential -/
+def padClaims (bdir : Dir) (p : List β) (n : Option (List β)) : List (List β × Dir) :=
+  (p, bdir) :: (match n with
+    | some n => if bdir = .i then [] else [(n, Dir.o)]
+    | none => [])
+
+/-- what one buffer puts on its pads and shows on `i` -/
+structure PadObs where
+  /-- the pads (of a differential pair: the true half), if driven -/
+  padO : Option (List Bool)
+  /-- the complementary half of a differential pair, if driven -/
+  padN : Option (List Bool)
+  oe : Option Bool
+  i : Option (List Bool)
+deriving DecidableEq, Repr
+
+/-- a combinational buffer on pads; unlike on a simulation port there is no loop-back: `i` is what is on the pads -/
+def padBuffer (diff : Bool) (bdir : Dir) (inv : List Bool) (o : List Bool) (oe : Bool) (pad : List Bool) : PadObs :=
+  { padO := if bdir = .i then none else some (padO inv o)
+    padN := if bdir = .i ∨ diff = false then none else some (padON inv o)
+    oe := if bdir = .i then none else some oe
+    i := if bdir = .o then none else some (padI inv pad) }
+
+/-- a registered buffer on pads, two named clocks (as `ffRun`; `e.pi` is the value on the pads) -/
+def ffRunPads (diff : Bool) (bdir : Dir) (inv : List Bool) (ro : List Bool) (roe : Bool) (ri : List Bool) :
+    List Ev → List PadObs
+  | [] => []
+  | e :: rest =>
+    let ri' := if e.tickI then (padBuffer diff bdir inv ro roe e.pi).i.getD ri else ri
+    let ro' := if e.tickO then e.o else ro
+    let roe' := if e.tickO then e.oe else roe
+    { padBuffer diff bdir inv ro' roe' e.pi with i := if bdir = .o then none else some ri' }
+      :: ffRunPads diff bdir inv ro' roe' ri' rest
 
 end Amaranth.IoBuf.Spec
